@@ -298,6 +298,18 @@ func (r *Redirect) Back(fallback ...string) error {
 func (r *Redirect) parseAndClearFlashMessages() {
 	// parse flash messages
 	cookieValue := r.c.Cookies(FlashCookieName)
+	if cookieValue == "" {
+		return
+	}
+
+	// Flash messages are shown once: make the client drop the cookie. It was issued
+	// with path "/" (see processFlashMessages), so it has to be expired with the same
+	// path. A redirect issued by this request replaces this entry with its own cookie.
+	r.c.Cookie(&Cookie{
+		Name:   FlashCookieName,
+		Path:   "/",
+		MaxAge: -1,
+	})
 
 	// The slice is reused between requests and UnmarshalMsg only assigns the fields
 	// that are present in the cookie: wipe the old elements first, otherwise a
@@ -338,6 +350,7 @@ func (r *Redirect) processFlashMessages() {
 	r.c.Cookie(&Cookie{
 		Name:        FlashCookieName,
 		Value:       r.c.app.getString(val),
+		Path:        "/",
 		SessionOnly: true,
 	})
 }
